@@ -184,7 +184,7 @@ Print Assumptions C05_semver_parse.
 
 (* ---- Proofs.CalverE2E ---- *)
 From Coq Require Import List Bool NArith ZArith Arith.
-From BV Require Import Lib.PyStr Lib.Decimal Lib.Calendar Model.V2 Model.Pep440 Model.Cli Model.Lexid Proofs.DottedFacts Proofs.CalverE2E.
+From BV Require Import Lib.PyStr Lib.Decimal Lib.Calendar Model.V2 Model.Pep440 Model.Cli Model.Lexid Proofs.DottedFacts Proofs.DottedJoinFacts Proofs.CalverE2E.
 Import ListNotations.
 (* calver_incr :
    forall (today date : Z) (fl : flags) (y m : N) (bid b' : list N), (1000 <= y <= 9999)%N -> (1 <= m <= 12)%N -> all_digits bid = true -> bid <> [] -> no_flags fl -> bump_bid bid = Some b' -> incr today (cv y m bid) P fl date = INew (calver_next y m b' date) *)
